@@ -33,6 +33,7 @@ class TCPServer:
         self.idle_task = TrioSingleTask()
         self.stream = stream
         self.state = state
+        self._reading = True
 
     def __await__(self) -> Generator[Any, None, None]:
         return self.run().__await__()
@@ -73,6 +74,10 @@ class TCPServer:
                 await self.protocol.initiate()
                 await self.idle_task.restart(self._task_group, self._idle_timeout)
                 await self._read_data()
+                # The client has gone (or stopped sending), the idle
+                # timeout must not keep this connection's tasks alive.
+                self._reading = False
+                await self.idle_task.stop()
         except OSError:
             pass
         finally:
@@ -91,7 +96,9 @@ class TCPServer:
             await self._close()
             await self.protocol.handle(Closed())
         elif isinstance(event, Updated):
-            if event.idle:
+            if event.idle and not self._reading:
+                await self._close()  # Nothing more can arrive
+            elif event.idle:
                 await self.idle_task.restart(self._task_group, self._idle_timeout)
             else:
                 await self.idle_task.stop()
